@@ -311,6 +311,5 @@ func checkC05(c *Ctx) {
 	})
 }
 
-
 // internalEvents: every event name of the three machines that ends in _internal.
 var internalEvents = strings.Fields("event_dkg_commits_confirm_canceled_by_error_internal event_dkg_commits_confirm_canceled_by_timeout_internal event_dkg_commits_confirmed_internal event_dkg_commits_validate_internal event_dkg_deals_confirm_canceled_by_error_internal event_dkg_deals_confirm_canceled_by_timeout_internal event_dkg_deals_confirmed_internal event_dkg_deals_validate_internal event_dkg_master_key_confirm_canceled_by_error_internal event_dkg_master_key_confirm_canceled_by_timeout_internal event_dkg_master_key_confirmed_internal event_dkg_master_key_required_internal event_dkg_master_key_validate_internal event_dkg_response_confirm_canceled_by_error_internal event_dkg_response_confirm_canceled_by_timeout_internal event_dkg_responses_confirmed_internal event_dkg_responses_validate_internal event_signing_partial_signs_await_cancel_by_timeout_internal event_signing_partial_signs_await_sign_cancel_by_error_internal event_signing_partial_signs_confirmed_internal")
